@@ -51,3 +51,264 @@ Definition C02_eval_twice_full : Prop :=
   forall release d c e v1 c1 v2 c2, no_assign e = true ->
     evalD release binop_impl builtin_impl d c e = (Ok v1, c1) ->
     evalD release binop_impl builtin_impl d c1 e = (Ok v2, c2) -> equals v1 v2 = true.
+
+(* ================================================================================================
+   Extension round: the "no effect on values" clause at full strength (proofs/C02Ren.v, C02Sim.v,
+   C02Ops.v, C02Keep.v, C02Twice.v, C02Let.v).
+
+   [same_up_to_cells v1 v2]: the two values are the same tree except for the indices of function
+   cells (erase = rename every index to 0); [osame] lifts it to outcomes (same class; Ok payloads
+   related).  Value::equals cannot tell such values apart ([C02_equals_blind_to_cells]).
+   [cfg_wf c]: the scope chain mentions only cells that exist.
+   [store_keep st st1]: the store grew and every cell of st has in st1 exactly the name (or no name) it had.
+
+   History: on the code as pinned before repo fix F52 an assignment named ANY unnamed lambda it was handed,
+   so an expression could name a cell that existed before it (`do { y = fs[0]; .. }`), and evaluating
+   [fs[0](1), do { y = fs[0]; return 0 }] twice gave [6, 0] and then an error (known/C02.json F52; the model of
+   that code refuted the unconditional statement, lemma C02_eval_twice_unconditional_refuted of the previous
+   revision of this file).  The eval-twice theorems then carried the hypothesis [old_names_kept].  With the
+   repair (an assignment names a lambda only if evaluating its right-hand side created it; Env.name_if_created,
+   Eval.bind_value) evaluation never writes to an existing cell ([C02_old_cells_untouched]) and the hypothesis is
+   gone; the old statements are kept as corollaries ([.._names_kept]).
+   ================================================================================================ *)
+From Coq Require Import Lia.
+Require Import Blots.EvalFull.
+Require Import Blots.proofs.C02Ren Blots.proofs.C02Sim Blots.proofs.C02Ops Blots.proofs.C02Keep Blots.proofs.C02Twice.
+
+(* STORE-EXTENSION INVARIANCE: for every injective renaming rho of cell indices and stores related by
+   it, every expression (assignments included), every depth: the renamed configuration gives the
+   renamed outcome and scope chain, and related stores again.  Generic in operators / built-ins that
+   commute with renamings ([ops_commute]); EvalInst's do ([C02_ops_commute_evaluator]). *)
+Theorem C02_store_extension_invariance : forall release bi bu, ops_commute bi bu ->
+  forall rho, (forall a b : nat, rho a = rho b -> a = b) ->
+  forall d e sA sB fr r sA' fr',
+    sinv rho sA sB -> evalD release bi bu d (sA, fr) e = (r, (sA', fr')) ->
+    exists sB', evalD release bi bu d (sB, renFr rho fr) e = (oren rho r, (sB', renFr rho fr')) /\
+                sinv rho sA' sB'.
+Proof. exact store_extension_invariance. Qed.
+Check C02_store_extension_invariance : forall release bi bu, ops_commute bi bu ->
+  forall rho, (forall a b : nat, rho a = rho b -> a = b) ->
+  forall d e sA sB fr r sA' fr',
+    sinv rho sA sB -> evalD release bi bu d (sA, fr) e = (r, (sA', fr')) ->
+    exists sB', evalD release bi bu d (sB, renFr rho fr) e = (oren rho r, (sB', renFr rho fr')) /\
+                sinv rho sA' sB'.
+Print Assumptions C02_store_extension_invariance.
+
+Theorem C02_ops_commute_evaluator : ops_commute binop_impl builtin_impl.
+Proof. exact ops_commute_inst. Qed.
+Check C02_ops_commute_evaluator : ops_commute binop_impl builtin_impl.
+Print Assumptions C02_ops_commute_evaluator.
+
+(* NO EVALUATION WRITES TO A CELL THAT EXISTED BEFORE IT (any expression, assignments and failures included;
+   also for the full built-in dispatcher): the heap is append-only in the strict sense *)
+Theorem C02_old_cells_untouched : forall release d c e r c',
+  evalD release binop_impl builtin_impl d c e = (r, c') -> store_keep (fst c) (fst c').
+Proof. exact evalD_store_keep. Qed.
+Check C02_old_cells_untouched : forall release d c e r c',
+  evalD release binop_impl builtin_impl d c e = (r, c') -> store_keep (fst c) (fst c').
+Print Assumptions C02_old_cells_untouched.
+Theorem C02_old_cells_untouched_full : forall release d c e r c',
+  evalD release binop_impl builtin_full d c e = (r, c') -> store_keep (fst c) (fst c').
+Proof. exact evalD_store_keep_full. Qed.
+Check C02_old_cells_untouched_full : forall release d c e r c',
+  evalD release binop_impl builtin_full d c e = (r, c') -> store_keep (fst c) (fst c').
+Print Assumptions C02_old_cells_untouched_full.
+
+(* EVAL-TWICE, exact form: the second outcome is the first with the cells of the first run moved up
+   by the number of cells the first run allocated; older cells keep their index *)
+Theorem C02_eval_twice_exact : forall release d e st fr r1 st1 fr1,
+  no_assign e = true -> frames_lt (length st) fr = true ->
+  evalD release binop_impl builtin_impl d (st, fr) e = (r1, (st1, fr1)) ->
+  fr1 = fr /\
+  exists st2, evalD release binop_impl builtin_impl d (st1, fr) e =
+                (oren (shift (length st) (length st1 - length st)) r1, (st2, fr)) /\
+              sinv (shift (length st) (length st1 - length st)) st1 st2.
+Proof. exact eval_twice_shift_uncond. Qed.
+Check C02_eval_twice_exact : forall release d e st fr r1 st1 fr1,
+  no_assign e = true -> frames_lt (length st) fr = true ->
+  evalD release binop_impl builtin_impl d (st, fr) e = (r1, (st1, fr1)) ->
+  fr1 = fr /\
+  exists st2, evalD release binop_impl builtin_impl d (st1, fr) e =
+                (oren (shift (length st) (length st1 - length st)) r1, (st2, fr)) /\
+              sinv (shift (length st) (length st1 - length st)) st1 st2.
+Print Assumptions C02_eval_twice_exact.
+
+(* EVAL-TWICE: same outcome class, results equal up to the cells the evaluation itself allocated,
+   scope chain untouched both times *)
+Theorem C02_eval_twice : forall release d e c r1 c1 r2 c2,
+  no_assign e = true -> cfg_wf c = true ->
+  evalD release binop_impl builtin_impl d c e = (r1, c1) ->
+  evalD release binop_impl builtin_impl d c1 e = (r2, c2) ->
+  osame r1 r2 /\ snd c2 = snd c /\ snd c1 = snd c.
+Proof. exact eval_twice_inst_uncond. Qed.
+Check C02_eval_twice : forall release d e c r1 c1 r2 c2,
+  no_assign e = true -> cfg_wf c = true ->
+  evalD release binop_impl builtin_impl d c e = (r1, c1) ->
+  evalD release binop_impl builtin_impl d c1 e = (r2, c2) ->
+  osame r1 r2 /\ snd c2 = snd c /\ snd c1 = snd c.
+Print Assumptions C02_eval_twice.
+
+(* in terms of the language's own equality: the second result equals the first exactly when the
+   first equals itself (it does not when it holds a NaN: `.==` is IEEE on numbers) *)
+Theorem C02_eval_twice_equals : forall release d e c v1 c1 v2 c2,
+  no_assign e = true -> cfg_wf c = true ->
+  evalD release binop_impl builtin_impl d c e = (Ok v1, c1) ->
+  evalD release binop_impl builtin_impl d c1 e = (Ok v2, c2) ->
+  equals v1 v2 = equals v1 v1.
+Proof. exact eval_twice_equals_uncond. Qed.
+Check C02_eval_twice_equals : forall release d e c v1 c1 v2 c2,
+  no_assign e = true -> cfg_wf c = true ->
+  evalD release binop_impl builtin_impl d c e = (Ok v1, c1) ->
+  evalD release binop_impl builtin_impl d c1 e = (Ok v2, c2) ->
+  equals v1 v2 = equals v1 v1.
+Print Assumptions C02_eval_twice_equals.
+
+(* the same for the evaluator with EVERY transcribed built-in, relative to the one hypothesis still kept as a
+   Prop for it ([C02_ops_commute_full] below); the naming side condition is discharged there too *)
+Theorem C02_eval_twice_full_dispatcher : ops_commute binop_impl builtin_full ->
+  forall release d e c r1 c1 r2 c2,
+  no_assign e = true -> cfg_wf c = true ->
+  evalD release binop_impl builtin_full d c e = (r1, c1) ->
+  evalD release binop_impl builtin_full d c1 e = (r2, c2) ->
+  osame r1 r2 /\ snd c2 = snd c /\ snd c1 = snd c.
+Proof. exact eval_twice_full_dispatcher. Qed.
+Check C02_eval_twice_full_dispatcher : ops_commute binop_impl builtin_full ->
+  forall release d e c r1 c1 r2 c2,
+  no_assign e = true -> cfg_wf c = true ->
+  evalD release binop_impl builtin_full d c e = (r1, c1) ->
+  evalD release binop_impl builtin_full d c1 e = (r2, c2) ->
+  osame r1 r2 /\ snd c2 = snd c /\ snd c1 = snd c.
+Print Assumptions C02_eval_twice_full_dispatcher.
+
+(* the statements of the previous revision (hypothesis old_names_kept / all_named), now corollaries *)
+Corollary C02_eval_twice_names_kept : forall release d e c r1 c1 r2 c2,
+  no_assign e = true -> cfg_wf c = true ->
+  evalD release binop_impl builtin_impl d c e = (r1, c1) -> old_names_kept (fst c) (fst c1) ->
+  evalD release binop_impl builtin_impl d c1 e = (r2, c2) ->
+  osame r1 r2 /\ snd c2 = snd c /\ snd c1 = snd c.
+Proof. intros release d e c r1 c1 r2 c2 Hna Hwf HA _ HB. exact (C02_eval_twice release d e c r1 c1 r2 c2 Hna Hwf HA HB). Qed.
+Corollary C02_eval_twice_all_named : forall release d e c r1 c1 r2 c2,
+  no_assign e = true -> cfg_wf c = true -> all_named (fst c) ->
+  evalD release binop_impl builtin_impl d c e = (r1, c1) ->
+  evalD release binop_impl builtin_impl d c1 e = (r2, c2) ->
+  osame r1 r2 /\ snd c2 = snd c /\ snd c1 = snd c.
+Proof. intros release d e c r1 c1 r2 c2 Hna Hwf _ HA HB. exact (C02_eval_twice release d e c r1 c1 r2 c2 Hna Hwf HA HB). Qed.
+Corollary C02_eval_twice_equals_names_kept : forall release d e c v1 c1 v2 c2,
+  no_assign e = true -> cfg_wf c = true ->
+  evalD release binop_impl builtin_impl d c e = (Ok v1, c1) -> old_names_kept (fst c) (fst c1) ->
+  evalD release binop_impl builtin_impl d c1 e = (Ok v2, c2) ->
+  equals v1 v2 = equals v1 v1.
+Proof. intros release d e c v1 c1 v2 c2 Hna Hwf HA _ HB. exact (C02_eval_twice_equals release d e c v1 c1 v2 c2 Hna Hwf HA HB). Qed.
+
+Theorem C02_equals_blind_to_cells : forall rho1 rho2 a b, equals (ren rho1 a) (ren rho2 b) = equals a b.
+Proof. exact equals_ren2. Qed.
+Check C02_equals_blind_to_cells : forall rho1 rho2 a b, equals (ren rho1 a) (ren rho2 b) = equals a b.
+Print Assumptions C02_equals_blind_to_cells.
+
+(* ---- the statement kept above as [C02_eval_twice_full] is false as written: a NaN result is not
+   `equals` to itself (the right statement is C02_eval_twice / C02_eval_twice_equals) ---- *)
+Lemma C02_eval_twice_full_refuted : ~ C02_eval_twice_full.
+Proof.
+  intros H.
+  specialize (H true 0 ([], [(FOwned, [])]) (ENum nnan) (VNum nnan) ([], [(FOwned, [])])
+                (VNum nnan) ([], [(FOwned, [])]) eq_refl eq_refl eq_refl).
+  vm_compute in H. discriminate H.
+Qed.
+
+(* ---- finding F52, repaired: after `fs = [x => x + y]; y = 5`, the expression
+       [fs[0](1), do { y = fs[0]; return 0 }]
+   used to succeed the first time and fail the second time (the do-block named the cell of fs[0] "y"; a named
+   function is bound to its own name when called, which shadowed the y its body found in the caller's chain).
+   With the repaired rule the cell stays anonymous and both evaluations give [6, 0]. ---- *)
+Definition F52_lam : value := VLam 0 [AReq "x"] (EBin Add (EId "x") (EId "y")) [].
+Definition F52_cfg : cfg := ([None], [(FOwned, [("y", VNum (num_of_Z 5)); ("fs", VList [F52_lam])])]).
+Definition F52_expr : expr :=
+  EList [Cm [] (ECall (EAccess (EId "fs") (ENum (num_of_Z 0))) [ENum (num_of_Z 1)]) None;
+         Cm [] (EDo [Cm [] (EAssign "y" (EAccess (EId "fs") (ENum (num_of_Z 0)))) None]
+                    (Cm [] (ENum (num_of_Z 0)) None)) None].
+Example C02_F52_repaired :
+  let r1 := evalD true binop_impl builtin_impl 3 F52_cfg F52_expr in
+  let r2 := evalD true binop_impl builtin_impl 3 (snd r1) F52_expr in
+  no_assign F52_expr = true /\ cfg_wf F52_cfg = true /\
+  fst r1 = Ok (VList [VNum (num_of_Z 6); VNum (num_of_Z 0)]) /\ fst r2 = fst r1 /\
+  lam_name (fst F52_cfg) 0 = None /\ lam_name (fst (snd r1)) 0 = None.
+Proof. vm_compute. repeat split. Qed.
+
+(* ---- the hypotheses are satisfiable on non-trivial programs ---- *)
+(* scope: f = n => n + 1 (named cell 0), l = [1, 2]; expression: [map(l, f), k => f(k), l via (z => z)] —
+   allocates two cells, calls a named function through a built-in and through `via` *)
+Definition ex_f : value := VLam 0 [AReq "n"] (EBin Add (EId "n") (ENum (num_of_Z 1))) [].
+Definition ex_cfg : cfg :=
+  ([Some "f"], [(FOwned, [("l", VList [VNum (num_of_Z 1); VNum (num_of_Z 2)]); ("f", ex_f)])]).
+Definition ex_expr : expr :=
+  EList [Cm [] (ECall (EBuiltin B_map) [EId "l"; EId "f"]) None;
+         Cm [] (ELam [AReq "k"] (ECall (EId "f") [EId "k"])) None;
+         Cm [] (EBin Via (EId "l") (ELam [AReq "z"] (EId "z"))) None].
+Example C02_eval_twice_example :
+  no_assign ex_expr = true /\ cfg_wf ex_cfg = true /\
+  let r1 := evalD true binop_impl builtin_impl 5 ex_cfg ex_expr in
+  let r2 := evalD true binop_impl builtin_impl 5 (snd r1) ex_expr in
+  is_ok (fst r1) = true /\ length (fst (snd r1)) = 3 /\ length (fst (snd r2)) = 5 /\
+  fst r1 <> fst r2 /\ osame (fst r1) (fst r2).
+Proof.
+  split; [reflexivity|split; [reflexivity|]].
+  vm_compute. repeat split. intros H; discriminate H.
+Qed.
+
+(* ---- LET-ABSTRACTION (proofs/C02Let.v) ----
+   In a configuration where x holds the cell-free value v that s evaluates to (the state after `x = s`),
+   C[x] and C[s] give the same outcome for every HEAD context C (the occurrence is the first thing the
+   context evaluates apart from literals / identifiers; once; not under a lambda or do-block):
+   x + e, t + x, x[e], x.f, -x, if x then .. else .., f(x, ..), [x, ..], output x, and nestings.
+   PARTIAL: the statement for arbitrary positions and several occurrences is kept as the Prop
+   [C02_let_abstraction_full]; what is missing is said in proofs/C02Let.v and notes/C02.md. *)
+Require Import Blots.proofs.C02Let.
+Theorem C02_let_abstraction_head_partial : forall release d x s st st1 fr v eA eB rA cA rB cB,
+  frames_lt (length st) fr = true ->
+  evalD release binop_impl builtin_impl d (st, fr) (EId x) = (Ok v, (st, fr)) ->
+  evalD release binop_impl builtin_impl d (st, fr) s = (Ok v, (st1, fr)) ->
+  cell_free v = true ->
+  hctx x s eA eB ->
+  evalD release binop_impl builtin_impl d (st, fr) eA = (rA, cA) ->
+  evalD release binop_impl builtin_impl d (st, fr) eB = (rB, cB) ->
+  osame rA rB.
+Proof. exact let_abstraction_head_uncond. Qed.
+Check C02_let_abstraction_head_partial : forall release d x s st st1 fr v eA eB rA cA rB cB,
+  frames_lt (length st) fr = true ->
+  evalD release binop_impl builtin_impl d (st, fr) (EId x) = (Ok v, (st, fr)) ->
+  evalD release binop_impl builtin_impl d (st, fr) s = (Ok v, (st1, fr)) ->
+  cell_free v = true ->
+  hctx x s eA eB ->
+  evalD release binop_impl builtin_impl d (st, fr) eA = (rA, cA) ->
+  evalD release binop_impl builtin_impl d (st, fr) eB = (rB, cB) ->
+  osame rA rB.
+Print Assumptions C02_let_abstraction_head_partial.
+
+Definition C02_let_abstraction_full : Prop := let_abstraction_full_stmt.
+
+(* kept, not proved: the operator / built-in hypothesis for the FULL built-in dispatcher (EvalFull.v);
+   every theorem above that is generic in [ops_commute] holds for it as soon as this does *)
+Definition C02_ops_commute_full : Prop := ops_commute binop_impl builtin_full.
+
+(* the hypotheses of the let-abstraction theorem on a non-trivial program:
+   scope t = [3, 4], x = [4, 5] (the value of  t + 1); s = t + 1;  C = f(□, 2)[0] with f = (a, b) => a * b *)
+Definition lx_f : value := VLam 0 [AReq "a"; AReq "b"] (EBin Multiply (EId "a") (EId "b")) [].
+Definition lx_st : store := [Some "f"].
+Definition lx_fr : frames :=
+  [(FOwned, [("x", VList [VNum (num_of_Z 4); VNum (num_of_Z 5)]);
+             ("t", VList [VNum (num_of_Z 3); VNum (num_of_Z 4)]); ("f", lx_f)])].
+Definition lx_s : expr := EBin Add (EId "t") (ENum (num_of_Z 1)).
+Definition lx_C (h : expr) : expr := EAccess (ECall (EId "f") [h; ENum (num_of_Z 2)]) (ENum (num_of_Z 0)).
+Example C02_let_abstraction_example :
+  hctx "x" lx_s (lx_C (EId "x")) (lx_C lx_s) /\
+  frames_lt (length lx_st) lx_fr = true /\
+  evalD true binop_impl builtin_impl 4 (lx_st, lx_fr) (EId "x") =
+    (Ok (VList [VNum (num_of_Z 4); VNum (num_of_Z 5)]), (lx_st, lx_fr)) /\
+  evalD true binop_impl builtin_impl 4 (lx_st, lx_fr) lx_s =
+    (Ok (VList [VNum (num_of_Z 4); VNum (num_of_Z 5)]), (lx_st, lx_fr)) /\
+  cell_free (VList [VNum (num_of_Z 4); VNum (num_of_Z 5)]) = true /\
+  fst (evalD true binop_impl builtin_impl 4 (lx_st, lx_fr) (lx_C lx_s)) = Ok (VNum (num_of_Z 8)).
+Proof.
+  split; [unfold lx_C; apply H_accl; apply H_call; [exact I|apply H_hole]|].
+  vm_compute. repeat split.
+Qed.
